@@ -40,7 +40,7 @@ import vlib
 from props import c01, c03
 
 ID = "C04"
-GEN = ["Dist", "Leaves", "Combinators", "Planar", "Params", "Misc", "Bnaf"]
+GEN = ["Dist", "Leaves", "Combinators", "Planar", "Params", "Misc", "Bnaf", "BnafGen"]
 RULE = c03.RULE + (" [C04 re-runs C03's correspondence: the generated Transformed/leaf/Chain definitions its theorems are about are tied there; "
                    "the quadrature/KS oracle (search) runs on the real code when a tie breaks]")
 TRUSTED = c03.TRUSTED + [
